@@ -345,4 +345,433 @@ Section CrashP.
     rewrite (puts_filter_absorb _ _ n (proj1 Hsh) (proj2 Hsh)).
     reflexivity.
   Qed.
+  (* ================= (b), (c): crashes ================= *)
+
+  (* ---------- one key ---------- *)
+  Lemma CellRepr_raise (c : cell) S a C : CellRepr c S S a a -> a <= C -> CellRepr c S S C C.
+  Proof.
+    intros [(flp & Rp) Rd Rm Rc] H. constructor.
+    - exists flp. apply (Repr_mono W _ _ a); assumption.
+    - assumption.
+    - destruct (c_m c); [|assumption]. destruct Rm as (fl & R). exists fl.
+      apply (Repr_mono W _ _ a); assumption.
+    - lia.
+  Qed.
+
+  Lemma CellRepr_ext (c : cell) S S' Sv Sv' a b :
+    CellRepr c S Sv a b -> (forall m, S m = S' m) -> (forall m, Sv m = Sv' m) -> CellRepr c S' Sv' a b.
+  Proof.
+    intros [(flp & Rp) Rd Rm Rc] H1 H2. constructor.
+    - exists flp. apply (Repr_ext W _ Sv); assumption.
+    - assumption.
+    - destruct (c_m c).
+      + destruct Rm as (fl & R). exists fl. apply (Repr_ext W _ S); assumption.
+      + intros m. rewrite <- H1, <- H2. apply Rm.
+    - assumption.
+  Qed.
+
+  (* [crash_in_commit_recovers] (TableP) with the clock of the recovered cell made explicit, so
+     that the recovered cells assemble into a table invariant again *)
+  Lemma cell_crash_recovers (c : cell) S Sv clk sclk b cd n C :
+    CellRepr c S Sv clk sclk ->
+    (forall m, m <= cd -> S m = Sv m) ->
+    n <= cd -> N.max clk (b - 1) <= n + W -> N.max (N.max clk (b - 1)) (n - 1) <= C ->
+    forall K, (K = crash_none c \/ crash_mid W b c = Ok K \/ crash_both W b c = Ok K) ->
+    exists c', c_reorg W n K = Ok c' /\ CellRepr c' (s_reorg S n) (s_reorg S n) C C.
+  Proof.
+    intros CR Hagree Hn Hwin HC K HK.
+    assert (Hsc : sclk <= clk) by (destruct CR; assumption).
+    assert (Hext : forall m, s_reorg Sv n m = s_reorg S n m).
+    { intros m. unfold s_reorg. symmetry. apply Hagree. lia. }
+    assert (G0 : exists c', c_reorg W n (crash_none c) = Ok c' /\
+                            CellRepr c' (s_reorg S n) (s_reorg S n) C C).
+    { pose proof (CellRepr_clear W _ _ _ _ _ CR) as CR0.
+      destruct (CellRepr_reorg W _ _ _ _ _ n CR0 ltac:(lia)) as (c' & Hc' & CR').
+      exists c'. split; [exact Hc'|].
+      apply (CellRepr_raise _ _ (N.max sclk (n - 1))); [|lia].
+      apply (CellRepr_ext _ (s_reorg Sv n) _ (s_reorg Sv n)); assumption. }
+    assert (G2 : forall K2, crash_both W b c = Ok K2 ->
+                 exists c', c_reorg W n K2 = Ok c' /\ CellRepr c' (s_reorg S n) (s_reorg S n) C C).
+    { intros K2 HK2. destruct (CellRepr_commit W _ _ _ _ _ b CR) as (c2 & Hc2 & CR2).
+      unfold crash_both in HK2. rewrite Hc2 in HK2. injection HK2 as <-.
+      destruct (CellRepr_reorg W _ _ _ _ _ n CR2 Hwin) as (c' & Hc' & CR').
+      exists c'. split; [exact Hc'|].
+      apply (CellRepr_raise _ _ (N.max (N.max clk (b - 1)) (n - 1))); [exact CR'|lia]. }
+    destruct HK as [->|[HK|HK]]; [exact G0| |exact (G2 K HK)].
+    unfold crash_mid in HK. destruct c as [[d p] m]. cbn [c_m c_d c_p fst snd] in *.
+    destruct m as [h|]; [|injection HK as <-; exact G0].
+    destruct (h_is_old W h b) eqn:Hold.
+    - destruct (h_latest h) as [l| |] eqn:Hl; cbn [rbind] in HK; try discriminate. injection HK as <-.
+      destruct p as [hp|].
+      + rewrite (c_reorg_ignores_d W n l d hp). exact G0.
+      + apply G2. unfold crash_both, c_commit. cbn [c_m c_d c_p fst snd]. rewrite Hl, Hold. reflexivity.
+    - injection HK as <-.
+      destruct (h_latest h) as [l| |] eqn:Hl.
+      + rewrite (c_reorg_ignores_d W n d l h). apply G2.
+        unfold crash_both, c_commit. cbn [c_m c_d c_p fst snd]. rewrite Hl, Hold. reflexivity.
+      + destruct (CellRepr_commit W _ _ _ _ _ b CR) as (c2 & Hc2 & _).
+        unfold c_commit in Hc2. cbn [c_m c_d c_p fst snd] in Hc2. rewrite Hl in Hc2. discriminate.
+      + destruct (CellRepr_commit W _ _ _ _ _ b CR) as (c2 & Hc2 & _).
+        unfold c_commit in Hc2. cbn [c_m c_d c_p fst snd] in Hc2. rewrite Hl in Hc2. discriminate.
+  Qed.
+
+  (* a crash inside the commit phase of reorg(n0): the key was either not reached (none), or its
+     rolled-back history was being committed with n0 *)
+  Lemma cell_reorg_crash_recovers (c : cell) S Sv clk sclk n0 hc n C :
+    CellRepr c S Sv clk sclk ->
+    (forall m, m <= hc -> S m = Sv m) ->
+    n <= hc -> n <= n0 -> clk <= n + W -> n0 - 1 <= n + W -> N.max clk (n0 - 1) <= C ->
+    forall K,
+      (K = crash_none c \/
+       exists h', h_reorg (c_retrieve c) n0 = Ok h' /\
+                  (K = crash_none (c_write c h') \/ crash_mid W n0 (c_write c h') = Ok K \/
+                   crash_both W n0 (c_write c h') = Ok K)) ->
+      exists c', c_reorg W n K = Ok c' /\ CellRepr c' (s_reorg S n) (s_reorg S n) C C.
+  Proof.
+    intros CR Hagree Hn Hn0 Hw Hw0 HC K [->|(h' & Hh' & HK)].
+    - apply (cell_crash_recovers c S Sv clk sclk n0 hc n C CR Hagree Hn); try lia.
+      left. reflexivity.
+    - destruct (CellRepr_eff W _ _ _ _ _ CR) as (fl & R).
+      pose proof (window_above_floor W _ _ _ _ n0 R ltac:(lia)) as Hfl.
+      destruct (Repr_reorg W _ _ _ _ n0 R Hfl) as (h2 & Hr & R' & _).
+      rewrite Hh' in Hr. injection Hr as <-.
+      assert (CR' : CellRepr (c_write c h') (s_reorg S n0) Sv clk sclk).
+      { destruct CR as [Rp Rd Rm Rc]. constructor; cbn [c_write c_m c_d c_p effp fst snd]; try assumption.
+        exists fl. assumption. }
+      assert (Hag' : forall m, m <= n -> s_reorg S n0 m = Sv m).
+      { intros m Hm. unfold s_reorg. rewrite N.min_l by lia. apply Hagree. lia. }
+      destruct (cell_crash_recovers _ _ _ _ _ n0 n n C CR' Hag' ltac:(lia) ltac:(lia) ltac:(lia) K HK)
+        as (c' & Hc' & CRc).
+      exists c'. split; [exact Hc'|].
+      apply (CellRepr_ext _ (s_reorg (s_reorg S n0) n) _ (s_reorg (s_reorg S n0) n)); try assumption;
+        intros m; unfold s_reorg; f_equal; lia.
+  Qed.
+
+  (* ---------- the cells of a persistent state, and prefixes of a commit's write pairs ---------- *)
+  Definition pcell (P : pstate) (k : N) : cell := (kv_get (p_db P) k, kv_get (p_cdb P) k, None).
+  Definition vframe (P P' : pstate) : Prop :=
+    p_hash P' = p_hash P /\ p_blk P' = p_blk P /\ p_raw P' = p_raw P /\ p_max P' = p_max P.
+
+  Lemma vframe_refl P : vframe P P.
+  Proof. repeat split. Qed.
+  Lemma vframe_trans P1 P2 P3 : vframe P1 P2 -> vframe P2 P3 -> vframe P1 P3.
+  Proof. intros (a & b & c & d) (a' & b' & c' & d'). repeat split; congruence. Qed.
+
+  Lemma entry_writes_effect b k0 h0 w :
+    entry_writes W b (k0, h0) = Ok w ->
+    exists w1 w2, w = [w1; w2] /\
+      forall P,
+        vframe P (apply_pwrite P w1) /\ vframe P (apply_pwrite (apply_pwrite P w1) w2) /\
+        (forall k, k <> k0 -> pcell (apply_pwrite P w1) k = pcell P k /\
+                              pcell (apply_pwrite (apply_pwrite P w1) w2) k = pcell P k) /\
+        crash_mid W b (kv_get (p_db P) k0, kv_get (p_cdb P) k0, Some h0) = Ok (pcell (apply_pwrite P w1) k0) /\
+        crash_both W b (kv_get (p_db P) k0, kv_get (p_cdb P) k0, Some h0)
+          = Ok (pcell (apply_pwrite (apply_pwrite P w1) w2) k0).
+  Proof.
+    unfold entry_writes. destruct (h_latest h0) as [l| |] eqn:Hl; cbn [rbind]; try discriminate.
+    intros [= <-].
+    assert (Hne : forall k, k <> k0 -> (k0 =? k) = false) by (intros k Hk; apply N.eqb_neq; congruence).
+    destruct (h_is_old W h0 b) eqn:Hold; destruct l as [v|]; do 2 eexists; (split; [reflexivity|]);
+      intros P; unfold vframe, pcell, crash_mid, crash_both, c_commit;
+      cbn [latest_write apply_pwrite p_db p_cdb p_hash p_blk p_raw p_max c_m c_d c_p fst snd];
+      rewrite ?Hl, ?Hold; cbn [rbind];
+      (split; [repeat split|]); (split; [repeat split|]);
+      (split; [intros k Hk; rewrite ?kv_get_put, ?kv_get_del, ?(Hne k Hk); split; reflexivity|]);
+      rewrite ?kv_get_put, ?kv_get_del, ?N.eqb_refl; split; reflexivity.
+  Qed.
+
+  Lemma prefix_nil_l {A} (p q : list A) : [] = p ++ q -> p = [] /\ q = [].
+  Proof. destruct p; [cbn [app]; intros <-; split; reflexivity|discriminate]. Qed.
+
+  (* for every key: nothing, the first or both of its two writes happened *)
+  Lemma vscript_prefix_cells b es :
+    NoDup (map fst es) ->
+    forall ws, vscript W b es = Ok ws ->
+    forall p q, ws = p ++ q ->
+    forall P,
+      vframe P (apply_pwrites P p) /\
+      forall k,
+        let c := (kv_get (p_db P) k, kv_get (p_cdb P) k, kv_get es k) in
+        let K := pcell (apply_pwrites P p) k in
+        K = crash_none c \/ crash_mid W b c = Ok K \/ crash_both W b c = Ok K.
+  Proof.
+    induction es as [|[k0 h0] t IH]; intros Hnd ws Hv p q Hpq P.
+    - cbn in Hv. injection Hv as <-. destruct (prefix_nil_l _ _ Hpq) as [-> _].
+      split; [apply vframe_refl|]. intros k. left. reflexivity.
+    - cbn [map fst] in Hnd. apply NoDup_cons_iff in Hnd as [Hnot Hnd'].
+      cbn [vscript] in Hv.
+      destruct (entry_writes W b (k0, h0)) as [w| |] eqn:Hw; cbn [rbind] in Hv; try discriminate.
+      destruct (vscript W b t) as [r| |] eqn:Hr; cbn [rbind] in Hv; try discriminate.
+      injection Hv as <-.
+      destruct (entry_writes_effect _ _ _ _ Hw) as (w1 & w2 & -> & Heff).
+      destruct (Heff P) as (Hf1 & Hf2 & Hoth & Hmid & Hboth).
+      assert (Hk0 : kv_get t k0 = None).
+      { apply kv_get_none_notin. exact Hnot. }
+      destruct p as [|x p].
+      + split; [apply vframe_refl|]. intros k. left. reflexivity.
+      + cbn [app] in Hpq. injection Hpq as <- Hpq.
+        destruct p as [|y p].
+        * (* only the first write of this key *)
+          split; [exact Hf1|]. intros k. cbn [kv_get apply_pwrites fold_left].
+          destruct (N.eqb_spec k0 k) as [<-|Hne].
+          -- right. left. exact Hmid.
+          -- left. destruct (Hoth k ltac:(congruence)) as [-> _].
+             unfold crash_none, pcell. cbn [c_d c_p fst snd]. reflexivity.
+        * cbn [app] in Hpq. injection Hpq as <- Hpq.
+          destruct (IH Hnd' r eq_refl p q Hpq (apply_pwrite (apply_pwrite P w1) w2)) as (Hfr & Hcells).
+          split; [apply (vframe_trans _ _ _ Hf2 Hfr)|].
+          intros k. cbn [kv_get]. specialize (Hcells k). cbn zeta in Hcells.
+          change (apply_pwrites P (w1 :: w2 :: p)) with (apply_pwrites (apply_pwrite (apply_pwrite P w1) w2) p).
+          destruct (N.eqb_spec k0 k) as [<-|Hne].
+          -- (* k0 is not in t: its cell stays the fully committed one *)
+             rewrite Hk0 in Hcells. right. right. rewrite Hboth. f_equal.
+             unfold pcell in *. unfold crash_none, crash_mid, crash_both, c_commit in Hcells.
+             cbn [c_m c_d c_p fst snd] in Hcells.
+             destruct Hcells as [H|[H|H]]; congruence.
+          -- destruct (Hoth k ltac:(congruence)) as [_ Hk]. unfold pcell in Hk. injection Hk as Hk1 Hk2.
+             rewrite Hk1, Hk2 in Hcells. exact Hcells.
+  Qed.
+  (* ---------- rolling back a table whose cells can each be rolled back ---------- *)
+  Lemma t_reorg_from_cells (t : @table N) n :
+    t_cache t = [] -> ksorted (t_db t) -> ksorted (t_cdb t) ->
+    (forall k, exists c', c_reorg W n (view t k) = Ok c') ->
+    exists t', t_reorg W t n = Ok t' /\ (forall k, c_reorg W n (view t k) = Ok (view t' k)) /\
+               t_cache t' = [] /\ ksorted (t_db t') /\ ksorted (t_cdb t').
+  Proof.
+    intros Hc Hsd Hsc Hcells.
+    assert (Hnd : NoDup (map fst (t_cache t))) by (rewrite Hc; constructor).
+    assert (Hall : forall k, exists h', h_reorg (c_retrieve (view t k)) n = Ok h').
+    { intros k. destruct (Hcells k) as (c' & Hc'). unfold c_reorg in Hc'.
+      destruct (c_touched (view t k)) eqn:Ht.
+      - destruct (h_reorg (c_retrieve (view t k)) n) as [h'| |]; cbn [rbind] in Hc'; try discriminate.
+        eexists; reflexivity.
+      - unfold c_touched in Ht. unfold c_retrieve, effp.
+        destruct (c_p (view t k)); [discriminate|]. destruct (c_m (view t k)); [discriminate|].
+        unfold h_reorg, h_new. cbn [filter fst]. destruct (N.leb_spec 0 n); [|lia]. eexists; reflexivity. }
+    destruct (reorg_keys_ok n (map fst (t_cdb t) ++ map fst (t_cache t)) t Hall) as (t1 & E1).
+    destruct (reorg_keys_view n _ _ _ E1) as (Hd & Hcd & Hnd1 & Hv1).
+    pose proof (Hnd1 Hnd) as Hnd1'.
+    assert (Hne : forall k h, In (k, h) (t_cache t1) -> h <> []).
+    { intros k h Hin. pose proof (kv_get_nodup_in _ _ _ Hnd1' Hin) as Hget.
+      specialize (Hv1 k). destruct (memb k _).
+      - destruct Hv1 as (h' & Hh' & Hv1).
+        assert (h = h').
+        { unfold view, c_write in Hv1. cbn [c_d c_p fst snd] in Hv1. rewrite Hget in Hv1. congruence. }
+        subst h'. unfold h_reorg in Hh'. destruct (filter _ _); [discriminate|]. injection Hh' as <-. discriminate.
+      - unfold view in Hv1. rewrite Hget, Hc in Hv1. cbn [kv_get] in Hv1. congruence. }
+    destruct (commit_entries_ok W n (t_cache t1) Hne (t_db t1, t_cdb t1)) as ([d' c'] & E).
+    assert (E2 : t_commit W t1 n = Ok (mkTable d' c' [])).
+    { unfold t_commit. rewrite E. reflexivity. }
+    assert (Hr : t_reorg W t n = Ok (t_clear (mkTable d' c' []))).
+    { unfold t_reorg. rewrite E1. cbn [rbind]. rewrite E2. reflexivity. }
+    eexists. split; [exact Hr|].
+    destruct (view_reorg W t n _ Hnd Hr) as [Hv _].
+    rewrite Hd, Hcd in E.
+    destruct (commit_entries_sorted W n _ _ _ _ _ Hsd Hsc E) as [Hsd' Hsc'].
+    split; [exact Hv|]. split; [reflexivity|]. split; assumption.
+  Qed.
+
+  (* ---------- any write keeps the maps ordered ---------- *)
+  Definition psorted (P : pstate) : Prop :=
+    ksorted (p_db P) /\ ksorted (p_cdb P) /\ ksorted (p_hash P) /\ ksorted (p_blk P) /\ ksorted (p_raw P).
+
+  Lemma apply_pwrite_sorted P w : psorted P -> psorted (apply_pwrite P w).
+  Proof.
+    intros (a & b & c & d & e).
+    destruct w as [k v|k|k h|k|wh k v|wh k|wh|n]; try (destruct wh as [|[q|q|]]);
+      unfold psorted; cbn [apply_pwrite p_db p_cdb p_hash p_blk p_raw p_max];
+      repeat split; try assumption; try (apply ksorted_put; assumption); apply ksorted_del; assumption.
+  Qed.
+
+  Lemma apply_pwrites_sorted ws : forall P, psorted P -> psorted (apply_pwrites P ws).
+  Proof.
+    induction ws as [|w ws IH]; intros P H; [exact H|].
+    rewrite apply_pwrites_cons. apply IH. apply apply_pwrite_sorted. exact H.
+  Qed.
+
+  (* ---------- what the block-table writes of a script may do to the rows <= n ---------- *)
+  Definition isv (w : pwrite) : Prop :=
+    match w with PLatestPut _ _ | PLatestDel _ | PHistPut _ _ | PHistDel _ => True | _ => False end.
+  Definition nonv (w : pwrite) : Prop :=
+    match w with PLatestPut _ _ | PLatestDel _ | PHistPut _ _ | PHistDel _ => False | _ => True end.
+  (* puts above n (and at most M), deletes above n, never the max row *)
+  Definition wok (n M : N) (w : pwrite) : Prop :=
+    match w with
+    | PBlockPut _ k _ => n < k /\ k <= M
+    | PBlockDel _ k => n < k
+    | PMax _ => False
+    | _ => True
+    end.
+
+  Definition bstep (n M : N) (m m' : kv N) : Prop :=
+    (forall x, x <= n -> kv_get m' x = kv_get m x) /\
+    (forall x, kv_get m' x <> None -> kv_get m x <> None \/ x <= M).
+
+  Lemma bstep_refl n M m : bstep n M m m.
+  Proof. split; [reflexivity|]. intros x H. left. exact H. Qed.
+  Lemma bstep_trans n M m1 m2 m3 : bstep n M m1 m2 -> bstep n M m2 m3 -> bstep n M m1 m3.
+  Proof.
+    intros [A1 B1] [A2 B2]. split.
+    - intros x Hx. rewrite (A2 x Hx). apply A1. exact Hx.
+    - intros x Hx. destruct (B2 x Hx) as [H|H]; [apply B1; exact H|right; exact H].
+  Qed.
+  Lemma bstep_put n M m k v : n < k -> k <= M -> bstep n M m (kv_put m k v).
+  Proof.
+    intros H1 H2. split; intros x Hx; rewrite kv_get_put in *.
+    - destruct (N.eqb_spec k x); [lia|reflexivity].
+    - destruct (N.eqb_spec k x); [right; lia|left; exact Hx].
+  Qed.
+  Lemma bstep_del n M m k : n < k -> bstep n M m (kv_del m k).
+  Proof.
+    intros H1. split; intros x Hx; rewrite kv_get_del in *.
+    - destruct (N.eqb_spec k x); [lia|reflexivity].
+    - destruct (N.eqb_spec k x); [contradiction|left; exact Hx].
+  Qed.
+
+  Definition bframe (n M : N) (P P' : pstate) : Prop :=
+    p_max P' = p_max P /\ bstep n M (p_hash P) (p_hash P') /\ bstep n M (p_blk P) (p_blk P') /\
+    bstep n M (p_raw P) (p_raw P').
+
+  Lemma apply_wok n M ws : Forall (wok n M) ws -> forall P, bframe n M P (apply_pwrites P ws).
+  Proof.
+    induction 1 as [|w ws Hw Hws IH]; intros P.
+    - split; [reflexivity|]. split; [apply bstep_refl|]. split; apply bstep_refl.
+    - rewrite apply_pwrites_cons. destruct (IH (apply_pwrite P w)) as (A & B & C & D).
+      assert (H1 : bframe n M P (apply_pwrite P w)).
+      { unfold bframe. destruct w as [k v|k|k h|k|wh k v|wh k|wh|x]; cbn [wok] in Hw.
+        - split; [reflexivity|]. split; [apply bstep_refl|]. split; apply bstep_refl.
+        - split; [reflexivity|]. split; [apply bstep_refl|]. split; apply bstep_refl.
+        - split; [reflexivity|]. split; [apply bstep_refl|]. split; apply bstep_refl.
+        - split; [reflexivity|]. split; [apply bstep_refl|]. split; apply bstep_refl.
+        - destruct Hw as [Hw1 Hw2].
+          destruct wh as [|[q|q|]]; cbn [apply_pwrite p_db p_cdb p_hash p_blk p_raw p_max];
+            (split; [reflexivity|split; [|split]]);
+            first [apply bstep_put; assumption | apply bstep_refl].
+        - destruct wh as [|[q|q|]]; cbn [apply_pwrite p_db p_cdb p_hash p_blk p_raw p_max];
+            (split; [reflexivity|split; [|split]]);
+            first [apply bstep_del; assumption | apply bstep_refl].
+        - split; [reflexivity|]. split; [apply bstep_refl|]. split; apply bstep_refl.
+        - contradiction. }
+      destruct H1 as (A1 & B1 & C1 & D1). split; [congruence|].
+      split; [apply (bstep_trans _ _ _ _ _ B1 B)|]. split; [apply (bstep_trans _ _ _ _ _ C1 C)|].
+      apply (bstep_trans _ _ _ _ _ D1 D).
+  Qed.
+
+  Lemma apply_nonv ws : Forall nonv ws -> forall P,
+    p_db (apply_pwrites P ws) = p_db P /\ p_cdb (apply_pwrites P ws) = p_cdb P.
+  Proof.
+    induction 1 as [|w ws Hw Hws IH]; intros P; [split; reflexivity|].
+    rewrite apply_pwrites_cons. destruct (IH (apply_pwrite P w)) as [-> ->].
+    destruct w as [k v|k|k h|k|wh k v|wh k|wh|x]; try (destruct wh as [|[q|q|]]); cbn [nonv] in Hw;
+      try contradiction; split; reflexivity.
+  Qed.
+
+  Lemma vscript_isv b es : forall ws, vscript W b es = Ok ws -> Forall isv ws.
+  Proof.
+    induction es as [|[k h] t IH]; intros ws Hv.
+    - cbn in Hv. injection Hv as <-. constructor.
+    - cbn [vscript entry_writes] in Hv.
+      destruct (h_latest h) as [l| |]; cbn [rbind] in Hv; try discriminate.
+      destruct (vscript W b t) as [r| |]; cbn [rbind] in Hv; try discriminate.
+      injection Hv as <-. apply Forall_app. split; [|apply IH; reflexivity].
+      destruct (h_is_old W h b), l; repeat constructor.
+  Qed.
+
+  Lemma isv_wok n M w : isv w -> wok n M w.
+  Proof. destruct w; cbn; tauto. Qed.
+
+  Lemma Forall_prefix {A} (Q : A -> Prop) (l p q : list A) : Forall Q l -> l = p ++ q -> Forall Q p.
+  Proof. intros H ->. apply Forall_app in H. apply H. Qed.
+
+  Lemma last_key_is {A} (m : list (N * A)) n :
+    ksorted m -> In n (map fst m) -> (forall x, In x (map fst m) -> x <= n) -> kv_last_key m = Some n.
+  Proof.
+    intros Hs Hin Hmax.
+    destruct m as [|a l]; [destruct Hin|].
+    destruct (ksorted_last_some (a :: l) ltac:(discriminate)) as (e & He). rewrite He. f_equal.
+    pose proof (ksorted_last_max _ _ _ Hs He Hin). pose proof (Hmax e (kv_last_key_in _ _ He)). lia.
+  Qed.
+
+  (* ---------- the recovered state ---------- *)
+  Definition Recovered (s : store) (F : fspec) (st : wfst) (s2 : store) (n : N) : Prop :=
+    (forall k, t_latest (st_t s2) k = Ok (fst F k n)) /\
+    (forall x, b_get (st_hash s2) x = if x <=? n then kv_get (b_db (st_hash s)) x else None) /\
+    (forall x, b_get (st_blk s2) x = if x <=? n then kv_get (b_db (st_blk s)) x else None) /\
+    (forall x, b_get (st_raw s2) x = if x <=? n then kv_get (b_db (st_raw s)) x else None) /\
+    latest_height s2 = n /\ next_height s2 = n + 1 /\
+    SInv W s2 (fun k => s_reorg (fst F k) n, fun k => s_reorg (fst F k) n)
+         (mkWf (Some n) (w_m st) (Some n) false None).
+
+  Lemma filter_le_keys (m : kv N) n x :
+    In x (map fst (filter (fun r => fst r <=? n) m)) -> x <= n /\ In x (map fst m).
+  Proof.
+    intros H. apply in_map_iff in H as (e & <- & He). apply filter_In in He as [He Hle].
+    apply N.leb_le in Hle. split; [exact Hle|]. apply in_map. exact He.
+  Qed.
+
+  Lemma recover_general s F st d' n :
+    SInv W s F st -> w_dirty st = false -> w_m st <= n + W ->
+    psorted d' -> p_max d' = st_max s ->
+    (forall k, exists c', c_reorg W n (pcell d' k) = Ok c' /\
+               CellRepr c' (s_reorg (fst F k) n) (s_reorg (fst F k) n) (w_m st) (w_m st)) ->
+    (forall x, x <= n -> kv_get (p_hash d') x = kv_get (b_db (st_hash s)) x) ->
+    (forall x, x <= n -> kv_get (p_blk d') x = kv_get (b_db (st_blk s)) x) ->
+    (forall x, x <= n -> kv_get (p_raw d') x = kv_get (b_db (st_raw s)) x) ->
+    kv_get (b_db (st_hash s)) n <> None -> n <= w_m st ->
+    exists s2, sto_reorg W (reopen d') n = Ok s2 /\ Recovered s F st s2 n.
+  Proof.
+    intros I Hclean Hwin (Hs1 & Hs2 & Hs3 & Hs4 & Hs5) Hmax Hcells Hh Hb Hr Hn Hnm.
+    destruct I as [It Imax Ilbn Ikeys Idb Ih Ihc Iopen Icl].
+    unfold sto_reorg. cbn [reopen st_max st_t st_hash st_blk st_raw st_lbn].
+    rewrite Hmax. unfold maxrow in Imax. rewrite Imax.
+    destruct (N.ltb_spec (W + n) (w_m st)); [lia|].
+    set (T := mkTable (p_db d') (p_cdb d') []).
+    destruct (t_reorg_from_cells T n eq_refl Hs1 Hs2) as (t' & Et & Hv & Hc' & Hsd & Hsc).
+    { intros k. destruct (Hcells k) as (c' & Hc' & _). exists c'. exact Hc'. }
+    rewrite Et. cbn [rbind].
+    assert (TR : TRepr t' (mkTSpec (fun k => s_reorg (fst F k) n) (fun k => s_reorg (fst F k) n)
+                                   (w_m st) (w_m st))).
+    { constructor; cbn [ts_cur ts_sav ts_clk ts_sclk]; try assumption.
+      - intros k. destruct (Hcells k) as (c' & Hc1 & CR).
+        change (pcell d' k) with (view T k) in Hc1. rewrite (Hv k) in Hc1. injection Hc1 as <-. exact CR.
+      - rewrite Hc'. constructor. }
+    destruct t' as [db' cdb' cache']. cbn [t_cache] in Hc'. subst cache'.
+    unfold sto_commit, t_commit.
+    cbn [st_t st_hash st_blk st_raw st_max st_lbn t_cache commit_entries rbind fst snd t_db t_cdb].
+    eexists. split; [reflexivity|].
+    set (fh := filter (fun e : N * N => fst e <=? n) (p_hash d')).
+    assert (Hfh_in : In n (map fst fh)).
+    { apply kv_get_in_keys. unfold fh. rewrite kv_get_filter_le. destruct (N.leb_spec n n); [|lia].
+      rewrite (Hh n ltac:(lia)). exact Hn. }
+    assert (Hfh_max : forall x, In x (map fst fh) -> x <= n).
+    { intros x Hx. apply (filter_le_keys _ _ _ Hx). }
+    assert (Hlast : kv_last_key fh = Some n).
+    { apply last_key_is; [apply ksorted_filter; exact Hs3|exact Hfh_in|exact Hfh_max]. }
+    unfold Recovered, sto_clear, b_commit, b_reorg, b_clear, t_clear.
+    cbn [st_t st_hash st_blk st_raw st_max st_lbn t_db t_cdb t_cache b_db b_cache fold_left filter].
+    fold fh.
+    split; [|split; [|split; [|split; [|split; [|split]]]]].
+    - intros k. rewrite (TRepr_latest W _ _ k (N.max (w_m st) n) TR) by (cbn [ts_clk]; lia).
+      cbn [ts_cur]. unfold s_reorg. f_equal. f_equal. lia.
+    - intros x. unfold b_get. cbn [b_cache b_db kv_get]. unfold fh. rewrite kv_get_filter_le.
+      destruct (N.leb_spec x n); [apply Hh; assumption|reflexivity].
+    - intros x. unfold b_get. cbn [b_cache b_db kv_get]. rewrite kv_get_filter_le.
+      destruct (N.leb_spec x n); [apply Hb; assumption|reflexivity].
+    - intros x. unfold b_get. cbn [b_cache b_db kv_get]. rewrite kv_get_filter_le.
+      destruct (N.leb_spec x n); [apply Hr; assumption|reflexivity].
+    - unfold latest_height, b_last_key. cbn [st_lbn st_hash b_db b_cache]. rewrite Hlast. reflexivity.
+    - unfold next_height, b_last_key. cbn [st_lbn st_hash b_db b_cache]. rewrite Hlast. reflexivity.
+    - constructor; cbn [st_t st_hash st_blk st_raw st_max st_lbn w_h w_m w_hc w_dirty w_open fst snd b_db b_cache].
+      + exists (w_m st), (w_m st). split; [exact TR|]. unfold bound, dstamp. cbn [w_open w_dirty w_m]. split; lia.
+      + unfold maxrow. cbn [st_max]. exact Imax.
+      + discriminate.
+      + intros k Hin. unfold hash_keys in Hin. cbn [st_hash b_db b_cache map app] in Hin.
+        rewrite app_nil_r in Hin. unfold bound, dstamp. cbn [w_open w_dirty w_m].
+        specialize (Hfh_max k Hin). lia.
+      + intros k Hin. specialize (Hfh_max k Hin). lia.
+      + intros h0 [= <-]. exact Hnm.
+      + intros h0 [= <-]. exact Hnm.
+      + discriminate.
+      + reflexivity.
+  Qed.
 End CrashP.
